@@ -15,22 +15,29 @@ exactly these definitions into the real generator.
 namespace IstioModel.C03
 open IstioModel.C04
 
-/-- One workload of the index: resource name (uid), its `network/ip` alias, whether it runs on the
-    proxy's node, and a content version. -/
+/-- One address of the index: resource name (workload uid, or `namespace/hostname` of a service), its
+    `network/ip` alias (what `AddressInfo.Aliases()` lists), whether it runs on the proxy's node, and
+    a content version.  `aliasIndexed = false`: the address is listed in `Aliases()` but a lookup by
+    it finds nothing (host-network pods are not indexed by IP).  Several entries may share one alias
+    (a lookup by it returns all of them).  `isSvc`: a Service address (the Workload type never
+    carries it). -/
 structure Wl where
   name  : String
   alias : String
   onNode : Bool
   ver   : Nat
+  aliasIndexed : Bool := true
+  isSvc : Bool := false
   deriving Repr, DecidableEq
 
 abbrev Index := List Wl      -- names distinct
 
-def Index.lookup (idx : Index) (k : String) : List Wl := idx.filter (fun w => w.name == k || w.alias == k)
+def Index.lookup (idx : Index) (k : String) : List Wl :=
+  idx.filter (fun w => w.name == k || (w.aliasIndexed && w.alias == k))
 
 /-- `AddressInformation` for a non-empty request: the entries found (one per resource name) ... -/
 def foundOf (idx : Index) (addrs : List String) : List Wl :=
-  idx.filter (fun w => addrs.contains w.name || addrs.contains w.alias)
+  idx.filter (fun w => addrs.contains w.name || (w.aliasIndexed && addrs.contains w.alias))
 
 /-- ... and the requested names with no entry ("removed"). An empty request means everything. -/
 def missingOf (idx : Index) (addrs : List String) : List String :=
@@ -94,29 +101,77 @@ def wdsGenerateG (fixed : Bool) (idx : Index) (w : WR) (r : WReq) : WOut :=
 
 def wdsGenerate : Index → WR → WReq → WOut := wdsGenerateG true
 
-/-- One `pushDeltaXds` for the Address type with the real generator: response and new server state. -/
-def wdsPushOne (idx : Index) (v : Srv) (r : WReq) : Srv × Option Wire :=
-  match v.st .addr with
-  | none => (v, none)
-  | some w =>
-    let g := wdsGenerate idx w r
-    -- the generator rewrites the record in place before anything is sent
-    let st1 := match g.newNames with
-      | some n => v.st.set .addr (some { w with names := n })
-      | none => v.st
-    match pushDelta .addr (match g.newNames with | some n => n | none => w.names) g.out with
-    | none => ({ v with st := st1 }, none)
-    | some (resp, nn) =>
-      ({ v with st := sendDelta st1 .addr (freshNonce v) nn true, ctr := v.ctr + 1 },
-       some { ty := .addr, resources := resp.resources, removed := resp.removed, nonce := freshNonce v })
+/-- Names of the Service addresses of the index. -/
+def svcNames (idx : Index) : List String := (idx.filter (·.isSvc)).map (·.name)
 
-/-- `processDeltaRequest` for the Address type. -/
-def wdsProcess (idx : Index) (v : Srv) (r : DReq) (retained : List (String × Nat)) : Option (Srv × Option Wire) :=
+/-- `GenerateDeltas` for a request of type `t` (Address or Workload - one generator serves both).
+    `appendAddress` counts every address found (`have`) and applies the version skip whatever the
+    type; only then the Workload type appends nothing for an address that is not a workload.  So the
+    answer for the Workload type is the answer for the Address type without the Service resources;
+    removed names and the rewritten record are the same. -/
+def wdsGenerateT (t : Ty) (idx : Index) (w : WR) (r : WReq) : WOut :=
+  let g := wdsGenerate idx w r
+  if t = .wl then
+    { g with out := { g.out with res := g.out.res.filter (fun x => !(svcNames idx).contains x.1) } }
+  else g
+
+/-- One `pushDeltaXds` for type `t` with the real generator: new server state, the response (if
+    any) and whether the send failed.  The on-demand generator rewrites the record in place BEFORE
+    anything is sent: the rewrite survives a failed send (the nonce does not move). -/
+def wdsPushOneT (t : Ty) (idx : Index) (v : Srv) (r : WReq) : Srv × Option Wire × Bool :=
+  match v.st t with
+  | none => (v, none, false)
+  | some w =>
+    let g := wdsGenerateT t idx w r
+    let st1 := match g.newNames with
+      | some n => v.st.set t (some { w with names := n })
+      | none => v.st
+    match pushDelta t (match g.newNames with | some n => n | none => w.names) g.out with
+    | none => ({ v with st := st1 }, none, false)
+    | some (resp, nn) =>
+      if v.fail then ({ v with st := st1 }, none, true)
+      else
+        ({ v with st := sendDelta st1 t (freshNonce v) nn true, ctr := v.ctr + 1 },
+         some { ty := t, resources := resp.resources, removed := resp.removed, nonce := freshNonce v }, false)
+
+/-- `processDeltaRequest` for type `t` (Address or Workload). -/
+def wdsProcessT (t : Ty) (idx : Index) (v : Srv) (r : DReq) (retained : List (String × Nat)) : Option (Srv × Option Wire) :=
   match shouldRespondDelta v.st r with
   | .crash => none
   | .out false s' => some ({ v with st := s' }, none)
   | .out true s' =>
     let subs := (deltaWatched [] r).1
-    some (wdsPushOne idx { v with st := s' } { isReq := true, sub := subs, retained := retained })
+    let x := wdsPushOneT t idx { v with st := s' } { isReq := true, sub := subs, retained := retained }
+    some (x.1, x.2.1)
+
+/-! ### The Authorization type: `WorkloadRBACGenerator`
+
+`pols` = what `AmbientIndexes.Policies` knows (name = `namespace/name`, version = content); the
+generator asks for all of them (forced push, every request) or for the updated keys only. -/
+
+/-- `WorkloadRBACGenerator.GenerateDeltas`.  `wn` = the names of the watched resource it is handed
+    (the record, or the newly subscribed names when the push answers a subscription change);
+    `updated` = the `AuthorizationPolicy` keys of `ConfigsUpdated`.
+    `expected = (forced ? record : updated keys)`, removed = expected - found. -/
+def wauthOutG (mergeRecord : Bool) (pols : List Res) (forced : Bool) (updated : List String) (wn : List String) : GenOut :=
+  if forced then
+    { res := pols, delNil := false, deleted := diff (if mergeRecord then wn else []) (names pols), usedDelta := true }
+  else if updated.isEmpty then { resNil := true, delNil := true }
+  else
+    let found := pols.filter (fun p => updated.contains p.1)
+    { res := found, delNil := false, deleted := diff updated (names found), usedDelta := true }
+
+def wauthOut : List Res → Bool → List String → List String → GenOut := wauthOutG true
+
+def wauthGen (pols : List Res) (forced : Bool) (updated : List String) : Gen :=
+  fun _ wn => wauthOut pols forced updated wn
+
+/-- `processDeltaRequest` for the Authorization type (a request is a forced generation). -/
+def wauthProcess (pols : List Res) (v : Srv) (r : DReq) : Option (Srv × List Wire) :=
+  processDelta (wauthGen pols true []) v { r with ty := .wauth }
+
+/-- One `pushDeltaXds` for the Authorization type on a push. -/
+def wauthPush (pols : List Res) (forced : Bool) (updated : List String) (v : Srv) : Srv × Option Wire × Bool :=
+  pushDeltaOne (wauthGen pols forced updated) v .wauth [] []
 
 end IstioModel.C03
